@@ -281,8 +281,14 @@ def r5_anchors(ctx, res):
     v = T('taxonomy_depth')
     # the maximum may be taken with max() over the path lengths or as a running maximum over the paths
     running = v.find('store', '#2 = len($2)', ('len($2) > #2',), ('for _synsets_for_pos(wordnet, pos)', 'for $1.hypernym_paths()'))
+    running_max = [r for r in v.rows if r[0] == 'store' and r[1] == '#2 = max(#2, len($2))'
+                   and tuple(r[3]) == ('for _synsets_for_pos(wordnet, pos)', 'for $1.hypernym_paths()')]
     if running:
         specs = [('store', '#2 = len($2)', ('len($2) > #2',), ('for _synsets_for_pos(wordnet, pos)', 'for $1.hypernym_paths()')), ('return', '#2')]
+    elif running_max:
+        # the same running maximum in its normal form (`if len(p) > d: d = len(p)` is `d = max(d, len(p))`)
+        specs = [('store', '#2 = max(#2, len($2))', tuple(sorted(running_max[0][2])), ('for _synsets_for_pos(wordnet, pos)', 'for $1.hypernym_paths()')),
+                 ('return', '#2')]
     else:
         specs = [('store', '#2 = max(#2, max((len(_1) for _1 in $1.hypernym_paths())))', ('$1.hypernym_paths()',), ('for _synsets_for_pos(wordnet, pos)',)),
                  ('return', '#2')]
